@@ -9,7 +9,6 @@ import (
 	"testing"
 	"time"
 
-
 	"verif/hs"
 	"verif/idxsets"
 	"verif/sched"
@@ -157,6 +156,7 @@ func sequential(res *vk.Result, s idxsets.BlobSet, k0 int, deadline time.Time) {
 
 func TestCheck(t *testing.T) {
 	defer vk.Cleanup()
+	idxsets.DelayBound = !vk.Thorough()
 	res := vk.New("C05")
 	res.Rule = "sequential: every arrival permutation of each blob set x (no restart | index.New over the same rows after prefix k, every k) x (with | without a duplicate delivery of every blob), plus Index.Reindex from storage; concurrent: every partition of an arrival order over 2-3 goroutines x every schedule with <= bound preemptions at index locks, blob-source fetches and KV calls; verdict = complete row dump equals the dependency-ordered run; distinct = distinct (variant, verdict) resp. distinct (decision shape, verdict)"
 	res.Assumptions = []string{"blob sets of <= 6 blobs built from two test signers", "harness in-memory KV under the index", "readyReindex map iteration order inside perkeep is not controlled"}
@@ -177,6 +177,8 @@ func TestCheck(t *testing.T) {
 	}
 	if group == "" || group == "concurrent" {
 		bound := 2
+		setsLeft := len(ss)
+		// (quick uses delay bounding with the same bound: every departure from the default scheduler counts)
 		for _, s := range ss {
 			n := len(s.Canon)
 			if n > 4 && !vk.Thorough() {
@@ -193,13 +195,16 @@ func TestCheck(t *testing.T) {
 				canon[i] = i
 				rev[i] = n - 1 - i
 			}
+			// each remaining blob set gets an equal share of the remaining time
+			setsLeft--
+			slice := time.Now().Add(time.Until(deadline) / time.Duration(setsLeft+1))
 			for _, perm := range [][]int{canon, rev} {
 				for k := 2; k <= 3 && k <= n; k++ {
 					if k == 3 && !vk.Thorough() && n > 3 {
 						continue
 					}
 					for _, assign := range idxsets.Partitions(n, k) {
-						sched.Explore(t, idxsets.ConcurrentScenario("C05|concurrent|", s, perm, assign, k, bound, want), res, deadline)
+						sched.Explore(t, idxsets.ConcurrentScenario("C05|concurrent|", s, perm, assign, k, bound, want), res, slice)
 					}
 				}
 			}
